@@ -39,7 +39,10 @@ def build_env(args):
             try:
                 n = 0
                 for klass, vals in canon.vectors_for(cdc, c, seed, k):
-                    body, fmap, sig, payloads = cdc.encode(c, vals)
+                    try:
+                        body, fmap, sig, payloads = cdc.encode(c, vals)
+                    except codec.NotCanonical:
+                        continue
                     if selfcheck:
                         try:
                             v2, _ = cdc.decode(c, body)
